@@ -118,7 +118,8 @@ def run(ctx):
 
     def harness(args, tag, meta, extra=()):
         trace = os.path.join(wd, "trace%s.ndjson" % tag)
-        rc, out = vlib.sh([exe] + args + [trace], env=vlib.SAN_ENV, timeout=300 if tier == "quick" else 1800)
+        env = dict(vlib.SAN_ENV, VH_NONCANON="1") if pid in ("C02", "C09") else vlib.SAN_ENV
+        rc, out = vlib.sh([exe] + args + [trace], env=env, timeout=300 if tier == "quick" else 1800)
         if rc != 0:
             mpath = os.path.join(wd, "meta.json")
             json.dump(meta, open(mpath, "w"))
